@@ -278,6 +278,40 @@ class AmpExecutor(readfile.ReadFileExecutor):
             return self.obj_method(st, obj, name, args, kwargs, node)
         return super().call_method(st, obj, name, args, kwargs, node)
 
+    def havoc_loop_state(self, st, body, spec):
+        # header mode: the object under verification keeps its class and -- when nothing in the loop body (or in the methods of the
+        # class it calls, three levels) stores to the stream attribute -- the binding of its stream; the position is anywhere
+        keep = None
+        sv = None
+        if self.header is not None:
+            try:
+                from contracts import c12_7zheader as H
+                sv = st.lookup("self")
+                attr = self.header["stream"]
+                o = st.obj(sv.ref) if isinstance(sv, VRef) else None
+                if o is not None and o.kind == "obj" and isinstance(o.data, dict) and isinstance(o.data.get(attr), VExt):
+                    stores = any(isinstance(n, ast.Attribute) and n.attr == attr and isinstance(n.ctx, (ast.Store, ast.Del)) for b in body for n in ast.walk(b))
+                    for b in body:
+                        for n in ast.walk(b):
+                            if isinstance(n, ast.Call) and isinstance(n.func, ast.Attribute) and isinstance(n.func.value, ast.Name) and n.func.value.id == "self":
+                                stores = stores or H.stores_attr(self.module, f"{o.cls}.{n.func.attr}", attr)
+                            elif isinstance(n, ast.Call) and any(isinstance(a, ast.Name) and a.id == "self" for a in list(n.args) + [k.value for k in n.keywords]):
+                                stores = True          # the object is handed to something else
+                    if not stores:
+                        keep = (o.cls, o.data[attr])
+            except Exception:  # noqa
+                keep = None
+        r = super().havoc_loop_state(st, body, spec)
+        if keep is not None and isinstance(sv, VRef):
+            from contracts import common
+            st.heap[sv.ref] = HeapObj("obj", {self.header["stream"]: keep[1]}, keep[0], False)
+            if st.lookup("self") is not sv:
+                st.frame.env["self"] = sv
+            p_ = z3.Int(fresh_name("pos_in_loop"))
+            st.assume(p_ >= 0)
+            st.ghost[common.pos_key(keep[1])] = p_
+        return r
+
     def try_concrete_while(self, s, st, limit=4096):
         # header mode: `while True:` loops that leave by a `break` on a value read from the stream are cut like any symbolic loop
         # (exact unrolling of a loop whose exit is symbolic forks at every step)
@@ -975,9 +1009,9 @@ TRUSTED = ["defusedxml forbids entity expansion", "stat().st_size is the size re
 # (the four router functions are no longer listed here: each is verified in the run by `conform[router.py::<fn>]`; one that is not
 #  proved shows up in `assumed_contracts` under its own target, see pyvc/check.py `verified_assumed`)
 ASSUMED_MODELS = ["pathlib.Path.stat/st_size", "open()", "io.BytesIO.seek/tell (position, SEEK_END = size)",
-                  "sevenzip.py::SevenZipReader._read_boolean_vector is verified UNDER its requires (count <= max(REPEAT_CAP, header size)); that requires is "
-                  "NOT yet an obligation at any call site: the loops of the parsers that call it (_parse_files_info's property loop, _parse_pack_info, _parse_unpack_info, "
-                  "_parse_substreams_info, _skip_substreams_info) are cut without executing their bodies / those parsers are not under contract",
+                  "sevenzip.py::SevenZipReader._read_boolean_vector: its requires (count <= max(REPEAT_CAP, header size)) is an obligation (call-pre#..) at the three call "
+                  "sites in _parse_files_info (one of them met by the size-of-an-existing-object rule); the call sites in _parse_pack_info / _parse_unpack_info / "
+                  "_parse_substreams_info / _skip_substreams_info are NOT checked (those parsers are not under contract)",
                   "sevenzip.py header parsers: a call of another SevenZipReader method is modelled as 'returns anything (an arbitrary int when annotated -> int), raises "
                   "anything, stream position anywhere, stream binding kept iff no store to it in the callee (AST, three levels)'"]
 BOUNDED = ["native-scope#explicit-limits, native-scope#zip-bomb-classes, native-scope#7z-declared-sizes and native-scope#repeat-attribute-classes: directed native runs of the replayer on every check (never counted as proved)"]
